@@ -1,7 +1,26 @@
 //! `sqv` — verification harness for quarylabs/sqruff (see /verif/DESIGN.md).
 //! One subcommand per property; every subcommand writes JSON lines to `--out`.
 mod common;
+mod c01;
+mod c02;
+mod c03;
+mod c04;
+mod c05;
+mod c06;
+mod c07;
+mod c08;
+mod c09;
 mod c10;
+mod c11;
+mod c12;
+mod c13;
+mod c14;
+mod c15;
+mod c16;
+mod c17;
+mod c18;
+mod c19;
+mod c20;
 
 fn main() {
     let argv: Vec<String> = std::env::args().skip(1).collect();
@@ -11,7 +30,26 @@ fn main() {
     }
     let args = common::Args::parse(&argv[1..]);
     match argv[0].as_str() {
+        "c01" => c01::main(&args),
+        "c02" => c02::main(&args),
+        "c03" => c03::main(&args),
+        "c04" => c04::main(&args),
+        "c05" => c05::main(&args),
+        "c06" => c06::main(&args),
+        "c07" => c07::main(&args),
+        "c08" => c08::main(&args),
+        "c09" => c09::main(&args),
         "c10" => c10::main(&args),
+        "c11" => c11::main(&args),
+        "c12" => c12::main(&args),
+        "c13" => c13::main(&args),
+        "c14" => c14::main(&args),
+        "c15" => c15::main(&args),
+        "c16" => c16::main(&args),
+        "c17" => c17::main(&args),
+        "c18" => c18::main(&args),
+        "c19" => c19::main(&args),
+        "c20" => c20::main(&args),
         other => {
             eprintln!("unknown subcommand {other}");
             std::process::exit(2);
